@@ -753,10 +753,11 @@ impl<'a> Gen<'a> {
         self.recvs[id] = r;
         // a newtype receiver of the same trait around it: `struct Outer(Inner);` hands the whole
         // element to Inner's implementation (FromDeriveInput and FromAttributes only)
-        if matches!(tr, Trait::DeriveInput | Trait::Attributes) && self.profile.options && self.rng.chance(1, 8) {
+        if matches!(tr, Trait::DeriveInput | Trait::Attributes) && self.profile.options && self.rng.chance(1, 5) {
             let outer = self.recvs.len();
             // around a generic receiver the wrapper is generic itself (`struct Outer<T>(T);`)
             let generic = !self.recvs[id].generics.is_empty() || (self.profile.generic_recv && self.rng.coin());
+            let supports = if self.profile.supports && tr == Trait::DeriveInput && self.rng.chance(1, 2) { Some(self.shape_words(tr)) } else { None };
             self.recvs.push(Recv {
                 id: outer,
                 tr,
@@ -770,7 +771,7 @@ impl<'a> Gen<'a> {
                 attr_names: vec![],
                 forward: Fwd::None,
                 attrs_field: None,
-                supports: None,
+                supports,
                 magic: vec![],
                 shape: Shape::Newtype(Ty::Recv(id)),
                 generics: if generic { "<T>".to_string() } else { String::new() },
